@@ -14,6 +14,7 @@ import (
 
 	"verif/internal/core"
 	"verif/internal/props"
+	"verif/third_party/xtools/go/ssa"
 )
 
 func main() {
@@ -21,7 +22,9 @@ func main() {
 	verif := flag.String("verif", "/verif", "verification directory (evidence, known findings)")
 	replay := flag.String("replay", "", "replay file: only report the rule+construct named in it")
 	anchors := flag.String("anchors", "", "list of anchor functions (default: anchors.txt beside the bin directory of this executable)")
+	threadAll := flag.Bool("threadall", false, "experiment: thread every constant merge point")
 	flag.Parse()
+	ssa.ThreadAllMerges = *threadAll || os.Getenv("ECHVERIF_THREADALL") != ""
 	core.AnchorsFile = *anchors
 	if core.AnchorsFile == "" {
 		if exe, err := os.Executable(); err == nil {
